@@ -3,6 +3,7 @@ mod c02;
 mod c03;
 mod c04;
 mod c05;
+mod c06;
 mod c07;
 mod c09;
 mod c10;
@@ -30,6 +31,7 @@ fn main() {
         "c03" => c03::run(&args),
         "c04" => c04::run(&args),
         "c05" => c05::run(&args),
+        "c06" => c06::run(&args),
         "c07" => c07::run(&args),
         "c09" => c09::run(&args),
         "c10" => c10::run(&args),
